@@ -163,6 +163,9 @@ func Close[T any](site string, ch chan<- T) {
 		panic("close of closed channel")
 	}
 	st.closed = true
+	if e.race != nil {
+		e.race.release(e.cur, key)
+	}
 	close(ch)
 }
 
@@ -204,6 +207,9 @@ func (m *Mutex) Unlock() {
 	if !m.locked {
 		panic("sync: unlock of unlocked mutex")
 	}
+	if e.race != nil {
+		e.race.release(e.cur, m)
+	}
 	m.locked = false
 }
 
@@ -227,6 +233,9 @@ func (m *RWMutex) Unlock() {
 	if ex == nil || ex.killing {
 		return
 	}
+	if ex.race != nil {
+		ex.race.release(ex.cur, m)
+	}
 	m.w = false
 }
 
@@ -244,6 +253,9 @@ func (m *RWMutex) RUnlock() {
 	if ex == nil || ex.killing {
 		return
 	}
+	if ex.race != nil {
+		ex.race.release(ex.cur, m)
+	}
 	m.r--
 }
 
@@ -253,6 +265,9 @@ type WaitGroup struct {
 }
 
 func (w *WaitGroup) Add(d int) {
+	if d < 0 && ex != nil && ex.race != nil && !ex.killing {
+		ex.race.release(ex.cur, w)
+	}
 	w.n += d
 	if w.n < 0 && ex != nil && !ex.killing {
 		panic("sync: negative WaitGroup counter")
